@@ -38,7 +38,7 @@ theorem assemble_empties (subs : List Ex) (p : Pt) :
   | bin op l r ihl ihr => simp only [Ex.assemble]; exact node _ _ (by rw [ihl, ihr]; rfl)
   | ifE c w ih => simp only [Ex.assemble]; exact node _ _ (by rw [ih]; simp [Ex.empty])
   | bounded w lo hi ih => simp only [Ex.assemble]; exact node _ _ (by rw [ih]; rfl)
-  | unary f w ih => simpa only [Ex.assemble, Ex.empty] using ih
+  | unary f w ih => simp only [Ex.assemble]; exact node _ _ (by rw [ih]; rfl)
   | shift w off _ => rfl
   | ptile id v pe n _ _ => rfl
 
